@@ -43,6 +43,12 @@ fn variants(ctx: &mut Ctx, a: &model::Alphabet, x: &[u8]) -> Vec<(&'static str, 
         longer.push(codes[0]); // extension by the zero-most code: a prefix in the other direction
         v.push(("extended-by-first-symbol", longer));
     }
+    if ctx.lite {
+        // interpreter budgets: the equal copy plus two other relations, rotating with the shard
+        let k = v.len();
+        let (i, j) = (1 + ctx.shard % (k - 1), 1 + (ctx.shard * 3 + 2) % (k - 1));
+        v = vec![v[0].clone(), v[i].clone(), v[j].clone()];
+    }
     v
 }
 
@@ -143,6 +149,8 @@ fn run<C: CI>(ctx: &mut Ctx) {
         let mut lens = boundary_lengths(a.bits, 3);
         if ctx.lite {
             lens = vec![0, 1, pw + 1];
+        } else {
+            lens.extend(long_lengths(a.bits).into_iter().step_by(3));
         }
         let mut k = 0usize;
         for n in lens {
@@ -195,7 +203,7 @@ fn run<C: CI>(ctx: &mut Ctx) {
         }
     });
     ctx.group(&format!("{name}/hashmap"), |ctx| {
-        let nkeys = ctx.n(120, 1500, 6);
+        let nkeys = ctx.n(120, 1500, 3);
         let mut modelmap: BTreeMap<Vec<u8>, usize> = BTreeMap::new();
         let mut std_map: HashMap<Seq<C>, usize> = HashMap::new();
         let mut weak_map: HashMap<Seq<C>, usize, WeakState> = HashMap::with_hasher(WeakState);
